@@ -193,6 +193,52 @@ func checkC11(c UpdCase) Outcome {
 		out.Violation = "rules file after update differs from the original with exactly the target operand replaced"
 		return out
 	}
+	// --all with a second assembly file for another link of the same rule: every link gets its own regex
+	if len(c.Rules.Rules) > 0 {
+		var other int = -1
+		for _, r := range c.Rules.Rules {
+			if r.ID != c.ID {
+				continue
+			}
+			for k, l := range r.Links {
+				if k != c.Offset && strings.HasSuffix(l.Op, "@rx") {
+					other = k
+				}
+			}
+		}
+		if other >= 0 {
+			e2 := setupUpd(c)
+			defer e2.sb.Close()
+			oarg := c.ID
+			if other > 0 {
+				oarg = fmt.Sprintf("%s-chain%d", c.ID, other)
+			}
+			e2.sb.WriteFile("crs/regex-assembly/"+oarg+".ra", "otherlink"+fmt.Sprint(other)+"\n")
+			ra := e2.run("regex", "update", "--all")
+			gotAll := e2.sb.Read("crs/" + e2.rulesPath)
+			sp2 := e2.spans[crsgen.Key(c.ID, other)]
+			// expected: both spans replaced (replace the later span first so offsets stay valid)
+			wantAll := e.original
+			type rep struct {
+				s    crsgen.Span
+				text string
+			}
+			reps := []rep{{span, gen.Stdout}, {sp2, "otherlink" + fmt.Sprint(other)}}
+			if reps[0].s.Start < reps[1].s.Start {
+				reps[0], reps[1] = reps[1], reps[0]
+			}
+			for _, r := range reps {
+				wantAll = wantAll[:r.s.Start] + r.text + wantAll[r.s.End:]
+			}
+			if ra.Exit != 0 || gotAll != wantAll {
+				out.Detail["all_exit"], out.Detail["rules_after_all"], out.Detail["rules_expected_all"] = ra.Exit, gotAll, wantAll
+				out.Detail["first_difference_all"] = firstDiffLine(gotAll, wantAll)
+				out.Violation = fmt.Sprintf("update --all with %s.ra and %s.ra does not give every link its own regex", c.Arg(), oarg)
+				return out
+			}
+			out.Labels = append(out.Labels, "all-with-two-links")
+		}
+	}
 	out.NonTrivial = len(c.Rules.Rules) >= 2 && (c.Offset > 0 || strings.ContainsAny(gen.Stdout, `"\`) || hasLabel(c.Lab, "several-rules"))
 	out.Key = e.original + "\x00" + c.Arg() + "\x00" + c.Prog.Canon()
 	out.Sample = map[string]any{"arg": c.Arg(), "rules": clip(e.original, 500), "generated": clip(gen.Stdout, 160)}
